@@ -983,3 +983,10 @@ m('c12-inverse-bypasses-mirror', ['C12', 'C20'], 'impl_inverse_uint_scale:caller
 m('c08-ref-kernel-magnitude-shortcut', ['C08'], 'kernel-table', [
   ('src/impl_ops_div.rs', "        if num_int == den_int {", "        if num_int.magnitude() == den_int.magnitude() {")],
   '&-x / &x returns +1')
+# ---- digit counting
+m('c18-count-digits-single-correction', ['C18', 'C07'], 'count_decimal_digits_uint:checked-after-last-update', [
+  ('src/arithmetic/mod.rs', "    while *uint >= num {\n        num *= 10u8;\n        digits += 1;\n    }", "    if *uint >= num {\n        num *= 10u8;\n        digits += 1;\n    }")],
+  'digit estimate corrected once instead of in a loop')
+m('c18-count-digits-out-of-step', ['C18', 'C07'], 'count_decimal_digits_uint:num-is-ten-to-the-digits', [
+  ('src/arithmetic/mod.rs', "        num *= 10u8;\n        digits += 1;", "        num *= 100u8;\n        digits += 1;")],
+  'num multiplied by 100 per counted digit')
